@@ -235,7 +235,22 @@ Theorem C27_vec_invariant : forall ops, N.of_nat (length ops) < 2 ^ 62 ->
 Proof. exact vec_invariant. Qed.
 Print Assumptions C27_vec_invariant.
 
+(* Bytes / String: the shared operations (CV o) plus Bytes::resize, Bytes::append (of a Bytes built by pushes; its
+   len/capacity observed), Bytes::split_at (both halves observed) and String::from_ascii + len/capacity/is_empty/
+   as_bytes (two clones) on the aliasing-free buffer model give exactly the observations, the documented
+   reverts (out-of-bounds set/insert/remove/swap, split_at beyond len) and no others, and the final
+   len/capacity/contents of the list reference.  `cweights` (1 per operation, + the new length of a resize, + the
+   length of an appended Bytes) below 2^62 keeps the code's checked u64 len/cap arithmetic from overflowing. *)
+Theorem C27_bytes_refines_list : forall ops, cweights ops < 2 ^ 62 -> crun ops vnew = clrun ops lnew.
+Proof. exact bytes_refines_list. Qed.
+Print Assumptions C27_bytes_refines_list.
+
 (* Non-vacuity *)
+Example C27_bytes_example :
+  crun [CV (VPush 1); CV (VPush 2); CV (VPush 3); CSplitAt 1; CAppend [7; 8]; CResize 7 9; CString; CSplitAt 8] vnew =
+  ([1; 1; 1; 2; 2; 2; 3; 2; 2; 7; 7; 0; 1; 2; 3; 7; 8; 9; 9], Rev FAILED_ASSERT_SIGNAL).
+Proof. vm_compute. reflexivity. Qed.
+
 Example C27_vec_example :
   vrun [VPush 5; VPush 6; VPush 7; VInsert 1 9; VCap; VRemove 0; VSwap 0 2; VPop; VSet 5 1] vnew =
   ([[]; []; []; []; [4]; [5]; []; [1; 9]], Rev FAILED_ASSERT_SIGNAL).
